@@ -35,6 +35,10 @@ structure CaseSt where
   nOps : Nat := 0
   drops : Option (List (Nat × Nat)) := none
   status : String := ""
+  /-- size distribution of the generated cases (evidence TAGs): generator family, capacity, thread count -/
+  sizeTags : List String := []
+  /-- largest batch (send: items offered, receive: items asked for) of the case -/
+  maxBatch : Nat := 0
   deriving Inhabited
 
 def kv (ws : List String) (key : String) : Option String :=
@@ -56,7 +60,16 @@ def parseFlavour (tok : String) (cap : Nat) : Option Flavour :=
   | "oneshot" => mk .os .oneshot
   | _ => none
 
-def init (ws : List String) : Except String CaseSt :=
+def sizeTagsOf (ws : List String) : List String :=
+  let cap := ((kv ws "cap").bind String.toNat?).getD 0
+  let threads := ((kv ws "threads").bind String.toNat?).getD 0
+  [s!"x:fam:{(kv ws "fam").getD "classic"}", s!"x:cap:{cap}",
+   s!"x:threads:{if threads ≤ 3 then toString threads else if threads ≤ 5 then "4-5" else "6+"}"]
+
+def batchBucket (n : Nat) : String :=
+  if n ≤ 4 then "0-4" else if n ≤ 15 then "5-15" else if n ≤ 40 then "16-40" else "41+"
+
+def init0 (ws : List String) : Except String CaseSt :=
   match kv ws "flavour" with
   | none => .error "missing flavour"
   | some f =>
@@ -72,6 +85,9 @@ def init (ws : List String) : Except String CaseSt :=
         if seqMode then .ok { seqMode := true, b := some (binit cap (f == "spmc_async")) }
         else .ok { skip := some "skipped:spmc-conc" }
       else .ok { skip := some s!"skipped:flavour:{f}" }
+
+def init (ws : List String) : Except String CaseSt :=
+  (init0 ws).map (fun st => { st with sizeTags := sizeTagsOf ws })
 
 def parseH (s : String) : Option HName :=
   match s.toList with
@@ -305,7 +321,7 @@ def parseDropsB (ws : List String) : Option (List (Nat × Nat × Nat)) :=
       | _, _ => none
     | _ => none
 
-def step (st : CaseSt) (op res : List String) : Except String (CaseSt × List String) :=
+def step0 (st : CaseSt) (op res : List String) : Except String (CaseSt × List String) :=
   match st.skip with
   | some _ => .ok (st, [])
   | none =>
@@ -414,6 +430,25 @@ def step (st : CaseSt) (op res : List String) : Except String (CaseSt × List St
       else .ok ({ st with drops := some d }, [])
   | _ => .ok (st, [])
 
+/-- size of the batch argument of a `C` line (`send_batch h 1,2,3` / `recv_batch h n`, also inside `fut f = …`) -/
+def batchArg (toks : List String) : Nat :=
+  let toks := match toks with
+    | "fut" :: _ :: "=" :: rest => rest
+    | _ => toks
+  match toks with
+  | [name, _, a] =>
+    if name.startsWith "send_batch" || name.startsWith "try_send_batch" then ((natList? a).map List.length).getD 0
+    else if name.startsWith "recv_batch" || name.startsWith "try_recv_batch" then a.toNat?.getD 0
+    else 0
+  | _ => 0
+
+def step (st : CaseSt) (op res : List String) : Except String (CaseSt × List String) :=
+  match op with
+  | "C" :: _ :: toks =>
+    let b := batchArg toks
+    step0 (if b > st.maxBatch then { st with maxBatch := b } else st) op res
+  | _ => step0 st op res
+
 def showEv : Ev → String
   | .call t o => s!"C{t}:{opName o}"
   | .ret t r => s!"R{t}:{showRes r}"
@@ -490,7 +525,7 @@ def lostWakeSigs (st : CaseSt) (h : HistoryF) (cfgF : Cfg) : List String :=
     [s!"{st.flTok}:{futKind o}:pending-enabled-not-woken" ++ (if swallowed then ":after-woken-future-dropped" else "")]
   | none => ((st.futOps.map (fun x => futKind x.2)).eraseDups).map (fun k => s!"{st.flTok}:{k}:pending-enabled-not-woken")
 
-def finish (liveness : Bool) (st : CaseSt) : Except String (List String) :=
+def finish0 (liveness : Bool) (st : CaseSt) : Except String (List String) :=
   match st.skip with
   | some why => .ok [why]
   | none =>
@@ -535,6 +570,9 @@ def finish (liveness : Bool) (st : CaseSt) : Except String (List String) :=
           match compareDrops s d with
           | .ok _ => .ok ["lin-ok", "drops-checked"]
           | .error m => .error m
+
+def finish (liveness : Bool) (st : CaseSt) : Except String (List String) :=
+  (finish0 liveness st).map (fun tags => tags ++ st.sizeTags ++ [s!"x:batch:{batchBucket st.maxBatch}"])
 
 /-- `liveness`: at `X deadlock` additionally require every never-returned operation to be disabled in
 the final model state (C05 / C06); off for the safety properties, whose ties must not depend on it. -/
